@@ -97,6 +97,12 @@ CONFIGS = {
     # fixed-width mode (netstat): repeated addresses on one line, address:port
     "pairw": dict(dels=["space", "colon"], tok=2, kinds=["text", "ip", "loop", "fqdn"], nip=2, pats=[[]], width=[True],
                   fam=["plain", "prefix"]),
+    # the cleaner is built the way every production caller builds it (insights/collect.py, connection.py: no explicit
+    # fqdn, the OS answers with the declared name), with and without an inventory label (display_name / ansible_host)
+    # configured, system name with / without a domain, every legal obfuscate x obfuscate_hostname vector; replayed
+    # completely through all paths of the tier
+    "own1": dict(dels=["space"], tok=2, kinds=["text", "short", "fqdn", "dom", "ip"], obf=[True, False],
+                 host=[True, False], pats=[[]], kws=[[]], nofqdn=[True], dname=[True, False], sysdom=[True, False]),
     # thorough: three tokens
     "triple": dict(dels=["space"], tok=3, nip=2, nkw=2, kws=[[1, 2]], pats=[[1]], regex=[False, True],
                    fam=["plain", "prefix"]),
@@ -163,9 +169,9 @@ CONFIGS = {
 }
 
 PLAN = {
-    "C08": dict(quick=dict(emit=["tok1", "switch1", "machineid", "pw4", "pair", "pats3", "pairx", "pairc", "pairw"], model=["orders"], cap=8000, nconc=3,
+    "C08": dict(quick=dict(emit=["tok1", "switch1", "machineid", "pw4", "pair", "pats3", "pairx", "pairc", "pairw", "own1"], model=["orders"], cap=8000, nconc=3,
                            paths=["content", "specprovider", "provider"]),
-                thorough=dict(emit=["tok1", "switch1", "machineid", "pw4", "pair", "pats3", "pairx", "pairc", "pairw", "triple", "triplep"], model=["orders"],
+                thorough=dict(emit=["tok1", "switch1", "machineid", "pw4", "pair", "pats3", "pairx", "pairc", "pairw", "own1", "triple", "triplep"], model=["orders"],
                               cap=45000, nconc=6, paths=["content", "content", "file", "provider", "fileprovider", "specprovider"])),
     "C09": dict(quick=dict(emit=["hist2", "hist2x", "histw", "hist3v6", "hist2v6", "hist2v6lb", "hist2kw", "hist2kwsub", "hist2own"], model=[], cap=8000, nconc=2, paths=["content"], long=80),
                 thorough=dict(emit=["hist2", "hist2x", "histw", "hist3v6", "hist2v6", "hist2v6lb", "hist2kw", "hist2kwsub", "hist2own", "hist3ip", "hist3host", "hist3mac"], model=[], cap=50000, long=600,
